@@ -1,7 +1,7 @@
 (* C06 — property theorems (statements only; proofs in Proofs*.v) *)
 From Coq Require Import NArith List Bool Arith.
 Import ListNotations.
-From LTV.C06 Require Import ParamsGen Model Proofs.
+From LTV.C06 Require Import ParamsGen Model Proofs ProofsInv ProofsRun.
 
 Theorem params_ok_now : params_ok = true.
 Proof. exact Proofs.params_ok_now. Qed.
@@ -43,3 +43,45 @@ Theorem keystream_aligned_partial :
     aligned_of (negotiate incoming p o pa pb ia 0) = true.
 Proof. exact Proofs.keystream_aligned_partial. Qed.
 Print Assumptions keystream_aligned_partial.
+
+(* PARTIAL: index safety of ProtocolBuffer<1254> is proved for EVERY policy, direction, input cell
+   sequence, segmentation and close timing (run = segments fed one after the other, each
+   optionally followed by the peer closing): positions stay within the per-state bounds of InvB
+   (pos + occupancy <= 1254 everywhere), fill_read_buffer never reaches its "Buffer overflow"
+   internal_error, event_read is never entered in an invalid state, and the only Crash the model
+   can still produce is receive_succeeded's "unread data won't fit" with more than 512 unread
+   bytes. MISSING: the inductive bound unread <= 450 (it needs the per-state occupancy bounds and a
+   data-dependent invariant of READ_ENC_KEY; shown here only on the enumerated matrix through
+   negotiation_table / keystream_aligned_partial), and exclusion of the OutOfFuel constructor. *)
+Theorem buffer_safe_partial : forall bfb incoming p segs,
+  safe_out (run bfb (Cont (if (incoming : bool) then init_in p else init_out p) []) segs).
+Proof. exact ProofsRun.buffer_safe_partial. Qed.
+Print Assumptions buffer_safe_partial.
+
+(* Whatever bytes arrive, a run ends in success, in receive_failed for this handshake (Failed), or
+   is still waiting; the model's transition function has no access to anything but this
+   handshake's own state. The residual Crash is the one of buffer_safe_partial. *)
+Theorem bad_handshake_closes_one : forall bfb incoming p segs,
+  match run bfb (Cont (if (incoming : bool) then init_in p else init_out p) []) segs with
+  | Crash s => 512 < L s
+  | _ => True
+  end.
+Proof. exact ProofsRun.bad_handshake_closes_one. Qed.
+Print Assumptions bad_handshake_closes_one.
+
+(* receive_failed: shape of every retry *)
+Theorem retry_policy_spec : forall p p',
+  retry_policy false p = RRetry p' ->
+  retrying p' = true /\ retry_mode p' = Allow /\ st_mode p' = st_mode p /\
+  ((retry_mode p = Deny /\ hs_mode p' = Deny) \/ (retry_mode p = Require /\ hs_mode p' = Require)).
+Proof. exact Proofs.retry_policy_spec. Qed.
+Print Assumptions retry_policy_spec.
+
+(* PARTIAL: for the 15 policies and the two failure points (before / right after the peer's key or
+   handshake part 1 was recognised) an outgoing failure is retried iff the retry flag was set and
+   nothing had been recognised, with the flipped handshake type, and the retry is never retried;
+   the one internal_error cell is (prefer, require, before). Not yet: all failure points by
+   induction over the run. *)
+Theorem retry_rule_partial : forall p fp, In p all_policies -> In fp [0; 1] -> retry_cell p fp = true.
+Proof. exact Proofs.retry_rule_partial. Qed.
+Print Assumptions retry_rule_partial.
